@@ -84,7 +84,8 @@ fn check_prep(p: &Prep, out: &Outcome<CObs>) -> Option<(String, String)> {
     }
     let before: f64 = p.pop.iter().map(|i| i.1).sum::<f64>() + p.ke.iter().sum::<f64>() + p.buffer;
     let after: f64 = pop.iter().map(|i| i.1).sum::<f64>() + o.ke.iter().sum::<f64>() + o.buffer;
-    let scale = before.abs().max(after.abs()).max(1.0);
+    // relative to the energy in the system (no absolute floor: energies of 1e-12 are conserved like energies of 1)
+    let scale = before.abs().max(after.abs());
     let accepted = *pop != p.pop.iter().map(|i| (i.0, i.1)).collect::<Vec<_>>() || o.ke != p.ke;
     if (before - after).abs() > 1e-9 * scale {
         return Some((
@@ -197,6 +198,24 @@ pub fn preps(thorough: bool) -> Vec<Prep> {
                 let pop: Vec<TInd> = (0..n).map(|i| if i < 2 { (7, 1.0) } else { (8, 3.0) }).collect();
                 v.push(Prep { reaction: 3, pop: pop.clone(), ke: ke.clone(), buffer, reactants: vec![0, 1], products: vec![(100, pv)], lr: 0.0 });
                 v.push(Prep { reaction: 2, pop: pop.clone(), ke: ke.clone(), buffer, reactants: vec![0, 1], products: vec![(100, pv), (101, 0.5)], lr: 0.0 });
+            }
+        }
+    }
+    // decimal values whose sums and differences round (an energy balance that is even up to an ulp), and the
+    // same cases at a scale of 1e-12
+    for scale in [1.0, 1e-12, 1e6] {
+        let g = |x: f64| x * scale;
+        for (r1, r2, k1, k2) in [(0.1, 0.3, 0.1, 0.0), (0.3, 0.1, 0.0, 0.2), (0.7, 0.1, 0.2, 0.1), (0.4, 0.4, 0.0, 0.0)] {
+            for (p1, p2) in [(0.1, 0.4), (0.3, 0.2), (0.4, 0.1), (0.7, 0.3), (0.2, 0.2)] {
+                let pop: Vec<TInd> = vec![(0, g(r1)), (1, g(r2)), (2, g(0.5))];
+                let ke = vec![g(k1), g(k2), g(1.25)];
+                for buffer in [0.0, g(0.3)] {
+                    v.push(Prep { reaction: 2, pop: pop.clone(), ke: ke.clone(), buffer, reactants: vec![0, 1], products: vec![(100, g(p1)), (101, g(p2))], lr: 0.0 });
+                    v.push(Prep { reaction: 3, pop: pop.clone(), ke: ke.clone(), buffer, reactants: vec![0, 1], products: vec![(100, g(p1 + p2))], lr: 0.0 });
+                    v.push(Prep { reaction: 3, pop: pop.clone(), ke: ke.clone(), buffer, reactants: vec![1, 0], products: vec![(100, g(p1))], lr: 0.0 });
+                    v.push(Prep { reaction: 0, pop: pop.clone(), ke: ke.clone(), buffer, reactants: vec![0], products: vec![(100, g(p1))], lr: 0.3 });
+                    v.push(Prep { reaction: 1, pop: pop.clone(), ke: ke.clone(), buffer, reactants: vec![1], products: vec![(100, g(p1)), (101, g(p2))], lr: 0.0 });
+                }
             }
         }
     }
